@@ -7,14 +7,17 @@
    the measure is the number of defined names without a cache entry; a name in creation always has
    an early-factory or early-reference entry, so re-entering it is answered from the cache.
 
-   [c02_cycles_succeed] (satisfiable graphs without substitution or faults start successfully with
-   every required point populated) is decided on every run by the oracle [oracle_cycles_succeed] /
-   [oracle_points] of Corr/WiringOracles.v on the implementation's observations and by the exact
-   correspondence with the model; its Rocq proof (every step of the monadic model yields Ok under
-   those hypotheses) is not done: it is the part of C02 that is c02_..._partial. *)
+   [c02_cycles_succeed]: when no post-processor substitutes components ([no_subst_b]), no callback or
+   loader fails ([no_faults_b]) and every point's proposed providers exist and are assignable
+   ([satisfiable_b]: in particular every REQUIRED point has a provider other than its holder), start-up
+   succeeds, whatever the cycles (Proofs/FactoryLiveness.v: under these hypotheses no step of the model can
+   fail with an error or a panic, and the termination theorem excludes fuel exhaustion); with
+   [c09_required_points_set] every required point is then populated with what the resolution proposes.
+   [procs_pointless_b] / [stages_ok_b] are the side conditions about the built-in pipeline that the checks
+   re-evaluate on the facts of every run. *)
 From Coq Require Import List Arith Bool ZArith.
 From IocVerif Require Import Model.App Proofs.FactoryBasics Proofs.FactoryTermination Proofs.FactoryInvariant
-  Proofs.ResolveProofs.
+  Proofs.ResolveProofs Proofs.FactoryNoPanic Proofs.FactoryWiring Proofs.FactoryLiveness.
 Import ListNotations.
 
 (* start-up terminates: the model never runs out of fuel, whatever the graph *)
@@ -25,6 +28,17 @@ Proof. intros vt s. exact (run_terminates vt s). Qed.
 Theorem c02_lookup_terminates : forall vt s st n,
   match do_get vt s (fuel_of s) st n with Fail FFuel _ => False | _ => True end.
 Proof. intros vt s st n. exact (do_get_fuel_of vt s st n). Qed.
+
+(* cycles resolve: a satisfiable graph without substitution and without faults starts successfully *)
+Theorem c02_cycles_succeed : forall s,
+  no_subst_b (normalise repaired s) = true -> no_faults_b (normalise repaired s) = true ->
+  satisfiable_b repaired (normalise repaired s) = true ->
+  procs_pointless_b (normalise repaired s) = true -> stages_ok_b (normalise repaired s) = true ->
+  exists st, run repaired s = Ok st.
+Proof.
+  intros s Hns Hnf Hsat Hpp Hso.
+  exact (run_core_succeeds repaired (normalise repaired s) eq_refl eq_refl eq_refl eq_refl Hns Hnf Hsat Hpp Hso).
+Qed.
 
 (* no component is ever wired to itself *)
 Theorem c02_never_self : forall s st,
@@ -62,6 +76,23 @@ Definition ex_pop2 : population :=
     mkComp 2 [] false None false false [] [mkPoint false (TIface 0) (SByName (Some 2)) None true] [] None None None false None;
     (* a component whose only candidate for its required interface point is itself *)
     mkComp 3 [5] false None false true [] [mkPoint false (TIface 5) SByType None true] [] None None None false None ].
+
+(* the hypotheses of c02_cycles_succeed hold for a graph with a cycle through a pointer, a slice and a name
+   (the five built-in stages in the order the real container sorts them, as read from the running code) *)
+Definition ex_pop2s : population :=
+  [ mkComp 100 [] false None false true [] [] [] None None None false (Some (Prio 16, PBuiltin BProps));
+    mkComp 101 [] false None false true [] [] [] None None None false (Some (Prio 16, PBuiltin BValue));
+    mkComp 102 [] false None false true [] [] [] None None None false (Some (Ord 2, PBuiltin BWire));
+    mkComp 103 [] false None false true [] [] [] None None None false (Some (Ord 2, PBuiltin BFunc));
+    mkComp 104 [] false None false true [] [] [] None None None false (Some (Ord 4, PBuiltin BFurther));
+    mkComp 0 [0] false None false false [] [mkPoint false (TPtr 1) SByType None true] [] None (Some false) None false None;
+    mkComp 1 [0] false None false false [] [mkPoint true (TIface 0) SByType None true; mkPoint false (TPtr 2) SByType None true] [] None (Some false) None false None;
+    mkComp 2 [] false None false false [] [mkPoint false (TIface 0) (SByName (Some 5)) None true] [] None None None false None ].
+
+Example c02_example_hypotheses :
+  let s := normalise repaired (mkScn ex_pop2s [] false None []) in
+  no_subst_b s && no_faults_b s && satisfiable_b repaired s && procs_pointless_b s && stages_ok_b s = true.
+Proof. vm_compute. reflexivity. Qed.
 
 Example c02_example_cycle :
   match run repaired (mkScn ex_pop2 [] false None []) with Ok st => field_of st 4 0 = [VOrig 2] | Fail _ _ => False end.
